@@ -727,6 +727,8 @@ def run_check(prop, tier, seed, replay):
         samples.append(dict(source=label, script=fmt_script(json.loads(lines[min(3, len(lines) - 1)]))))
         calls = sum(l.count('"op"') // 2 for l in lines[:20]) / max(1, min(20, len(lines)))   # calls per script (each op has a nested d.op)
         k = max(1, min(T["chunks"], len(lines) // 60 + 1), int(len(lines) * calls * max(1, nlay)) // 8000)
+        if nobj > 20:
+            k = len(lines)        # a large universe makes the judge slow per line: one TLC per script
         for ci in range(k):
             part = lines[ci::k]
             sp = os.path.join(wd, "%s_%d.ndjson" % (label, ci))
